@@ -387,7 +387,28 @@ def c06 (ms : M) (e : Event) : List String :=
         ++ (if !(v.sndOK && v.tgtOK) then ["C06.gate_bypassed{check=compid}"] else [])
         ++ (if !(cfg.skipLatency || replay || v.timeOK) then ["C06.gate_bypassed{check=sendingtime}"] else []))
       ++ (if reachedV && ((!v.noEmpty && emptyChecked) || demanded.isSome) then ["C06.gate_bypassed{check=validation}"] else [])
-    if !loggedOn then gate else
+    -- validation: a message that gets as far as the validator (session-level header in order, its number the expected one
+    -- where the number is checked first; a SequenceReset with an unreadable GapFillFlag is refused before) …
+    let headerOK := v.beginOK && v.sndOK && v.tgtOK && (cfg.skipLatency || replay || v.timeOK) && v.seq.isSome && !v.possDupGarbled
+    let gf := fget m.f 123
+    let atValidator := headerOK && (if gatedKind m then v.seq == some prev.T else true)
+      && (k != "4" || gf == none || gf == some "Y" || gf == some "N")
+    -- … and conforms, or carries a defect whose check the configured settings switch off (RejectInvalidMessage=N,
+    -- AllowUnknownMsgFields=Y, ValidateUserDefinedFields=N, ValidateFieldsOutOfOrder=N, ValidateFieldsHaveValues=N; no
+    -- dictionary to check against), is not rejected by validation: it reaches its callback (a Logon of a FIXT session
+    -- without DefaultApplVerID is refused before)
+    let acceptable : Option String := match plant with
+      | none => none
+      | some (pk, _) =>
+        if !atValidator then none
+        else if pk == .conforming then some "C06.validation_rejects_conforming"
+        else if demanded.isNone then some ("C06.validation_rejects_tolerated{defect=" ++ pk.name ++ "}")
+        else none
+    let badAccept : List String := match acceptable with
+      | none => []
+      | some c => if k == "A" && cfg.bs == 5 && (fget m.f 1137).isNone then [] else if reachedV then [] else [c]
+    -- (before the handshake only a Logon is looked at)
+    if !loggedOn then gate ++ (if k == "A" then badAccept else []) else
     -- reactions, judged in plain InSession state for directly handed messages whose only defect is the one named
     let ws := wires (dropOldWires prev.q e.items)
     let kinds := ws.map (·.1)
@@ -426,27 +447,14 @@ def c06 (ms : M) (e : Event) : List String :=
       else if v.beginOK && v.sndOK && v.tgtOK && (cfg.skipLatency || v.timeOK) && v.seq.isNone && fget m.f 34 != some "" then
         (if kinds == ["3"] && rejTag "34" then [] else ["C06.reaction_wrong{defect=field34}"])
       else []
-    -- validation: a message that gets as far as the validator (session-level header in order, its number the expected one
-    -- where the number is checked first; a Logon is answered differently and a SequenceReset with an unreadable GapFillFlag
-    -- is refused before) …
-    let headerOK := v.beginOK && v.sndOK && v.tgtOK && (cfg.skipLatency || replay || v.timeOK) && v.seq.isSome && !v.possDupGarbled
-    let gf := fget m.f 123
-    let atValidator := headerOK && (if gatedKind m then v.seq == some prev.T else true)
-      && (k != "4" || gf == none || gf == some "Y" || gf == some "N")
+    -- … and carries a defect the validator spec rejects under the configured settings is answered with a Reject naming the
+    -- planted (reason, tag) where C15 fixes them, and consumes its sequence number (a Logon is answered with a Logout)
     let validation : List String :=
       match plant with
       | none => []
       | some (pk, pt) =>
-        if !atValidator then [] else
-        if pk == .conforming then
-          -- … and conforms is not rejected by validation: it reaches its callback (a Logon of a FIXT session without
-          -- DefaultApplVerID is refused before)
-          (if k == "A" && cfg.bs == 5 && (fget m.f 1137).isNone then []
-           else if reachedV then [] else ["C06.validation_rejects_conforming"])
-        else if demanded.isNone || k == "A" then []
+        if !atValidator || demanded.isNone || k == "A" then []
         else
-          -- … and carries a defect the validator spec rejects under the configured settings is answered with a Reject
-          -- naming the planted (reason, tag) where C15 fixes them, and consumes its sequence number
           (match ws.head? with
            | some ("3", _, f) =>
              (if rejectNames cfg pk pt f then [] else ["C06.validation_reject_misnamed{defect=" ++ pk.name ++ "}"])
@@ -471,7 +479,7 @@ def c06 (ms : M) (e : Event) : List String :=
                | none => (fget f dst).isNone)
              && fget f 49 == some cfg.sender && fget f 56 == some cfg.target
           then [] else ["C06.reject_routing_not_reversed"]
-    gate ++ react ++ validation ++ shape
+    gate ++ react ++ badAccept ++ validation ++ shape
 
 /-! ## C07: resets only when agreed; forward-only SequenceReset; reset Logon numbering -/
 
